@@ -442,9 +442,10 @@ def rotation(chk, repo):
         okk = sp.simplify(k - 180 / sp.pi) == 0
         CL = sp.Function("CLIP")
         if okk and isinstance(rest, sp.asin):
-            a = rest.args[0]
-            good = isinstance(a, CL) and a.args[1:] == (-1, 1) and symx.equal(a.args[0], b[2])[0]
-            chk.ob("R10.5", "_rotate::latitude", bool(good), fi.where(), "lat' = asin(clip(b2, -1, 1)) in degrees (clamped on both sides)")
+            chk.ob("R10.5", "_rotate::latitude", False, fi.where(),
+                   "lat' must not be asin(b2): d(asin x)/dx = 1/cos(lat'), so the rounding of b2 (1.1e-16) grows without bound towards lat' = 90 -- and the native "
+                   "latitude of every pixel near CRPIX is close to 90, as is the celestial latitude for reference points near a pole (both in the property's "
+                   "quantifier, 1e-9 degree / 1e-6 pixel); the atan2(b2, hypot(b0, b1)) form is accurate everywhere")
         elif okk and isinstance(rest, sp.atan2):
             a, h = rest.args
             inner = a.args[0] if isinstance(a, CL) else a
